@@ -77,12 +77,43 @@ async fn when_async_arg(_: &mut MW, n: i32) -> Result<(), String> {
 #[when("when literal (with) meta.chars?")]
 fn when_literal(_: &mut MW) {}
 
+/// Ordinal number: both groups take part in every match; `FromStr` is to see the first non-empty one.
+#[derive(Clone, Copy, Debug, cucumber::Parameter, PartialEq)]
+#[param(name = "ordinal", regex = r"(\d+)(st|nd|rd|th)")]
+pub struct Ordinal(pub u32);
+
+impl std::str::FromStr for Ordinal {
+    type Err = std::num::ParseIntError;
+
+    fn from_str(s: &str) -> Result<Self, Self::Err> {
+        s.parse().map(Self)
+    }
+}
+
+#[given(expr = "pick the {ordinal} of {int} from {word}")]
+fn expr_custom(_: &mut MW, which: Ordinal, total: u32, shelf: String) {
+    note("expr_custom", format!("{},{total},{shelf}", which.0));
+}
+
+#[when(regex = r"^all of (\d+) (\d+) (\d+)$")]
+fn slice_args(_: &mut MW, all: &[u64]) {
+    note("slice_args", all.iter().map(ToString::to_string).collect::<Vec<_>>().join(","));
+}
+
+#[given("twice")]
+#[when("twice again")]
+fn twice(_: &mut MW) {}
+
 /// `World::collection()`: every attribute-registered step is found under its own keyword only, literal attributes match the
 /// identical text only.
 fn registration() {
     let c = MW::collection();
     // (label, keyword, text that matches, texts that must not match)
-    let cases: [(&str, &str, &str, &[&str]); 6] = [
+    let cases: [(&str, &str, &str, &[&str]); 10] = [
+        ("twice_given", "Given", "twice", &["twice again"]),
+        ("twice_when", "When", "twice again", &["twice"]),
+        ("expr_custom", "Given", "pick the 2nd of 5 from shelf", &["pick the 2 of 5 from shelf", "pick the 2nd of five from shelf", "pick the 2nd of 5 from top shelf"]),
+        ("slice_args", "When", "all of 1 2 3", &["all of 1 2", "all of 1 2 x"]),
         ("unit", "Given", "unit", &["unit extra", "xunit", "uni"]),
         ("direct", "Given", "direct", &["directly"]),
         ("when_literal", "When", "when literal (with) meta.chars?", &["when literal with meta.chars?", "when literal (with) metaXchars?", "when literal (with) meta.char"]),
@@ -100,6 +131,11 @@ fn registration() {
                 wrong.push(format!("{k}:{n}"));
             }
             if k == kw {
+                if let Ok(Some((_, _, _, ctx))) = &found {
+                    // the capture groups the wrapper is handed: name (or -) of each, in order
+                    let names: Vec<String> = ctx.matches.iter().map(|(n, _)| n.clone().unwrap_or_else(|| "-".to_owned())).collect();
+                    println!("NAMES {label} {}", names.join(","));
+                }
                 if let Ok(Some((_, _, loc, _))) = &found {
                     if loc.map_or(true, |l| !l.path.ends_with("macros.rs")) {
                         wrong.push("location".to_owned());
@@ -123,6 +159,10 @@ fn dispatch() {
         ("then_two_args_bad", "Then then 99999999999999999999999 and x"),
         ("given_step_arg", "Given step arg 5"),
         ("when_async_arg", "When async -3"),
+        ("expr_custom", "Given pick the 2nd of 5 from shelf"),
+        ("expr_custom_bad", "Given pick the 99999999999th of 5 from shelf"),
+        ("slice_args", "When all of 1 2 3"),
+        ("slice_args_bad", "When all of 1 99999999999999999999999 3"),
     ];
     let mut text = String::from("Feature: f\n");
     for (name, st) in cases {
